@@ -104,6 +104,22 @@ pub struct Sim {
     pub base_height: u32,
 }
 
+thread_local! {
+    /// `world filter <tag>`: the policy tag demoted to a warning for the current case (read by `services`,
+    /// also at restore time)
+    static FILTER_TAG: std::cell::RefCell<Option<String>> = std::cell::RefCell::new(None);
+}
+
+/// channel-level policy tags a `world filter` may demote (none of them guards a node-level request of the
+/// `nodereq` model)
+pub const FILTER_TAGS: &[&str] = &[
+    "policy-other", "policy-commitment-retry-same", "policy-commitment-fee-range", "policy-commitment-htlc-count-limit",
+    "policy-commitment-htlc-inflight-limit", "policy-commitment-htlc-received-spends-active-utxo", "policy-commitment-singular-to-holder",
+    "policy-commitment-previous-revoked", "policy-commitment-holder-not-revoked", "policy-revoke-not-closed",
+    "policy-mutual-fee-range", "policy-mutual-value-matches-commitment", "policy-commitment-htlc-routing-balance",
+    "policy-commitment-payment-approved", "policy-commitment-broadcaster-pubkey", "policy-commitment-version",
+];
+
 fn services(persister: Arc<dyn Persist>, clock: Arc<ManualClock>, perm: bool) -> NodeServices {
     // policy numbers mirrored by lean/VlsModel/Drv/NodeReq.lean (cfg, vc0)
     let mut policy = make_default_simple_policy(Network::Testnet);
@@ -112,6 +128,10 @@ fn services(persister: Arc<dyn Persist>, clock: Arc<ManualClock>, perm: bool) ->
     // the channel map may hold the ready channel and three stubs (a channel with a permanent id is in
     // the map under both ids); mirrored by cfg.maxChannels = 4 of the model
     policy.max_channels = if perm { 5 } else { 4 };
+    if let Some(tag) = FILTER_TAG.with(|t| t.borrow().clone()) {
+        use lightning_signer::policy::filter::{FilterRule, PolicyFilter};
+        policy.filter = PolicyFilter { rules: vec![FilterRule::new_warn(tag)] };
+    }
     NodeServices {
         validator_factory: Arc::new(SimpleValidatorFactory::new_with_policy(policy)),
         starting_time_factory: make_genesis_starting_time_factory(Network::Testnet),
@@ -205,6 +225,8 @@ impl Sim {
         // `world nocp`: the node starts at the genesis block instead of the compiled-in checkpoint, so its
         // tracker stays below the checkpoint height (a signer that has synced only a few blocks)
         let nocp = first_op == "world nocp";
+        // `world filter <tag>`: one channel-level policy tag is demoted to a warning
+        FILTER_TAG.with(|t| *t.borrow_mut() = first_op.strip_prefix("world filter ").map(|x| x.to_string()));
         // `world h`: the ready channel is created through `new_channel(dbid, peer)`, so that the real
         // protocol handler (vls-protocol-signer `ChannelHandler` for that peer/dbid) addresses it; its initial
         // commitment is not yet validated (as in `world fresh`).  Ops `HVH` / `HRV` go through the handler.
